@@ -231,12 +231,13 @@ class CallMixin(StmtMixin):
     def call_function(self, st: State, fi: FuncInfo, args: list, kwargs: dict, node: Any, ctx: Ctx) -> Res:
         # dynamic dispatch on the receiver's class where it is known
         c = self.find_contract(fi)
+        if fi.is_generator:
+            # nothing runs at the call: the body (or its contract) takes effect where the generator is consumed
+            yield from self.make_generator(st, fi, args, kwargs, node, ctx)
+            return
         if c is not None and not c.inline and not c.inline_at_calls:
             st, binds = self.bind_params(st, fi, args, kwargs, node)
             yield from self.apply_contract(st, c, binds, node, fi)
-            return
-        if fi.is_generator:
-            yield from self.make_generator(st, fi, args, kwargs, node, ctx)
             return
         allowed = (c is not None and (c.inline or c.inline_at_calls)) or fi.key in self.inline_ok or fi.key in self.reg.inline or self.inline_all
         if not allowed:
@@ -275,6 +276,18 @@ class CallMixin(StmtMixin):
 
     # ---------------------------------------------------------- apply_contract
     def apply_contract(self, st: State, c: Contract, binds: dict[str, Any], node: Any, fi: FuncInfo | None = None) -> Res:
+        """the contract of a callee at a call site; a contract that admits *no* outcome in a reachable state is
+        contradictory there and would make everything after the call vacuously provable: reported, never silent"""
+        n = 0
+        pre_ok = [True]
+        for r in self._apply_contract(st, c, binds, node, fi, pre_ok):
+            n += 1
+            yield r
+        if n == 0 and pre_ok[0]:
+            raise Unsupported(f"the contract of {c.key} admits no outcome at this call site although the state before the "
+                              f"call is reachable (contradictory contract clauses here)", node)
+
+    def _apply_contract(self, st: State, c: Contract, binds: dict[str, Any], node: Any, fi: FuncInfo | None, pre_ok: list) -> Res:
         if c.trusted:
             self.used_trusted.add(c.key)
         line = getattr(node, "lineno", 0)
@@ -302,6 +315,7 @@ class CallMixin(StmtMixin):
         for lab, g in pre.items():
             self.oblige(st, f"{c.key}.{lab}", "pre", g, node)
         st = st.assume(*[g for g in pre.values()])
+        pre_ok[0] = not any(g is False for g in pre.values()) and self.feasible(st)
         env.st = st
         env.snapshot_old()
         raises = c.raises(env) if c.raises else {}
@@ -326,9 +340,14 @@ class CallMixin(StmtMixin):
                     env_r.snapshot_old()
                     st_r2 = self.havoc_paths(st_r, c, binds)
                     env_r.st = st_r2
-                    post = self.eval_clause_dict(c.on_raise, env_r)
-                    post = {k: v for k, v in post.items() if not any(k.endswith(suf) for suf in c.tag_suffix)}
-                    st_r = env_r.st.assume(*post.values())
+                    for st_rc, _lab in self.apply_list_cases(st_r2, c, c.lists_on_raise, env_r, binds, None, node):
+                        env_rc = Env(self, st_rc, binds)
+                        object.__setattr__(env_rc, "_old_heap", env_r._old_heap)
+                        object.__setattr__(env_rc, "_old_binds", env_r._old_binds)
+                        post = self.eval_clause_dict(c.on_raise, env_rc)
+                        post = {k: v for k, v in post.items() if not any(k.endswith(suf) for suf in c.tag_suffix)}
+                        yield env_rc.st.assume(*post.values()), Raised(ExcVal(names_t[0]))
+                    continue
                 yield st_r, Raised(ExcVal(names_t[0]))
         st_n = st.assume(*[Not(cd) for cd in conds if cd is not False])
         if conds and not self.feasible(st_n):
@@ -367,29 +386,81 @@ class CallMixin(StmtMixin):
             env_a.set_result(res)
             if c.ghost_exit is not None:
                 c.ghost_exit(env_a)
-            post = self.eval_clause_dict(c.ensures, env_a)
-            # clauses carrying a tag suffix state a property over a region where it is *not* established for the
-            # callee (listed known findings); callers must not build on them
-            post = {k: v for k, v in post.items() if not any(k.endswith(suf) for suf in c.tag_suffix)}
-            st_a = env_a.st.assume(*post.values())
-            if len(alts) > 1:
+            for st_c, clabel in self.apply_list_cases(env_a.st, c, c.lists, env_a, binds, res, node):
+                env_c = Env(self, st_c, binds)
+                object.__setattr__(env_c, "_old_heap", env._old_heap)
+                object.__setattr__(env_c, "_old_binds", env._old_binds)
+                env_c.set_result(res)
+                post = self.eval_clause_dict(c.ensures, env_c)
+                # clauses carrying a tag suffix state a property over a region where it is *not* established for the
+                # callee (listed known findings); callers must not build on them
+                post = {k: v for k, v in post.items() if not any(k.endswith(suf) for suf in c.tag_suffix)}
+                if any(v is False for v in post.values()):
+                    continue          # this alternative / case is excluded by the contract itself
+                st_a = env_c.st.assume(*post.values())
                 if not self.feasible(st_a):
-                    if os.environ.get("PYVC_DBG") == "1":
-                        import z3 as _z3
-                        sv = _z3.Solver()
-                        names = {}
-                        for i, (lab, g) in enumerate(post.items()):
-                            if is_z3(g) and not _hq(g):
-                                p_ = _z3.Bool(f"lab_{lab}")
-                                names[str(p_)] = lab
-                                sv.assert_and_track(g, p_)
-                        for i, cnd in enumerate(st_n.pc):
-                            if is_z3(cnd) and not _hq(cnd):
-                                sv.assert_and_track(cnd, _z3.Bool(f"pc_{i}"))
-                        print("  alt", alts.index(alt), "infeasible:", sv.check(), [str(x) for x in sv.unsat_core()][:12])
                     continue
-                st_a = st_a.with_note(f"L{line}:{c.key.split('.')[-1]}#{alts.index(alt)}")
-            yield st_a, res
+                if len(alts) > 1 or clabel:
+                    st_a = st_a.with_note(f"L{line}:{c.key.split('.')[-1]}#{clabel or alts.index(alt)}")
+                if c.linear:
+                    rr = res.val if isinstance(res, Opt) else res
+                    if isinstance(rr, Ref):
+                        st_a = st_a.event(("linear", res.isnone if isinstance(res, Opt) else False, rr, c.key, line))
+                yield st_a, res
+
+    # ------------------------------------------------------------- list cases
+    def resolve_list_path(self, st: State, path: str, binds: dict, res: Any) -> Ref | None:
+        parts = path.split(".")
+        cur = res if parts[0] == "result" else binds.get(parts[0])
+        if isinstance(cur, Opt):
+            cur = cur.val
+        for p_ in parts[1:]:
+            if not isinstance(cur, Ref):
+                return None
+            o = st.obj(cur)
+            if not o.has(p_):
+                return None
+            cur = o.get(p_)
+        if isinstance(cur, Ref) and st.obj(cur).kind == "list":
+            return cur
+        return None
+
+    def apply_list_cases(self, st: State, c: Contract, fn: Any, env: Env, binds: dict, res: Any, node: Any):
+        """`lists(e)` -> [{label, when, set: {path: [items]}}]: the contract's statement of what the row lists it modifies
+        look like afterwards, case by case. Items are views of rows/segments of the old state, `...` for "zero or more
+        new rows" and NEW(sort) for one new element. Verified structurally on the body (check_list_cases); at a call
+        site each feasible case continues with exactly that structure."""
+        from .contract import NEW
+        from .state import unwrap
+        if fn is None:
+            yield st, ""
+            return
+        cases = fn(env)
+        for case in cases:
+            when = case["when"]
+            if when is False:
+                continue
+            if when is not True and not self.feasible(st, when):
+                continue
+            st_c = st if when is True else st.assume(when)
+            for path, items in case["set"].items():
+                lref = self.resolve_list_path(st_c, path, binds, res)
+                if lref is None:
+                    raise Unsupported(f"lists case {case['label']} of {c.key}: {path} is not a list here", node)
+                new: list = []
+                for it in items:
+                    if it is Ellipsis:
+                        seg = Seg(V.fresh_of_sort(f"{path.split('.')[-1]}+", V.SegSort), path)
+                        st_c = st_c.assume(V.seg_len(seg.const) >= 0)
+                        new.append(seg)
+                    elif isinstance(it, NEW):
+                        st_c, v, inv = self.make(st_c, it.sort, it.name)
+                        st_c = st_c.assume(*inv)
+                        new.append(v)
+                    else:
+                        new.append(unwrap(it))
+                st_c = st_c.heap_set(lref, "items", tuple(new))
+            yield st_c, case["label"]
 
     def result_alternatives(self, sort: Sort) -> list:
         if sort.kind == "rows_upto":
@@ -828,7 +899,7 @@ class CallMixin(StmtMixin):
                 return
         if isinstance(v, Ref):
             o = st.obj(v)
-            if o.kind == "iter":
+            if o.kind in ("iter", "absiter"):
                 yield st, v
                 return
             if o.kind == "list" and not any(isinstance(x, Seg) for x in o.get("items")):
